@@ -485,7 +485,8 @@ fn undouble(body: &[u32]) -> String {
 pub fn drive_c08(a: &Args) {
     let mut rng = Rng::new(a.seed);
     let mut out = Out::create(&a.out, "c08_literals.ndjson");
-    let sym: [u32; 8] = [92, 117, 123, 125, 48, 51, 102, 103];
+    // (the ninth symbol is the capital U: a case-insensitive test of the escape letter would accept it)
+    let sym: [u32; 9] = [92, 117, 123, 125, 48, 51, 102, 103, 85];
     // all texts up to a length over the eight critical symbols
     for t in all_strings(&sym, a.sz(4, 5)) {
         out.emit(parse_event(&t));
@@ -512,7 +513,8 @@ pub fn drive_c08(a: &Args) {
             for close in [false, true] {
                 let (pre, post) = if a.thorough() { (rng.pick(&ctx).clone(), rng.pick(&ctx).clone()) } else { (vec![], rng.pick(&ctx).clone()) };
                 let mut t = pre;
-                t.extend([92, 117]);
+                // every fourth attempt is spelled with a capital U: never an escape
+                t.extend([92, if (ds.len() + t.len() + open as usize) % 4 == 3 { 85 } else { 117 }]);
                 if open {
                     t.push(123);
                 }
